@@ -41,9 +41,26 @@ func (op *FsTxn) CommitFh() bool {
 	return ok
 }
 
+// A transaction that wrote something may have modified its inodes (and
+// their Dcache) in place.  Forget the cached copies, while still
+// holding the locks, so that the next user reads the committed inodes
+// through the journal.
+func (op *FsTxn) dropInodes() {
+	for _, ip := range op.inodes {
+		cslot := op.Fs.Icache.LookupSlot(uint64(ip.Inum))
+		if cslot == nil {
+			panic("dropInodes")
+		}
+		cslot.Obj = nil
+	}
+}
+
 // An aborted transaction may free an inode, which results in dirty
 // buffers that need to be written to log. So, call commit.
 func (op *FsTxn) Abort() bool {
+	if op.Atxn.Op.NDirty() > 0 {
+		op.dropInodes()
+	}
 	op.releaseInodes()
 	op.Atxn.PostAbort()
 	return true
